@@ -80,6 +80,17 @@ CHECKS["C07"] = dict(level="model_checking", ref="DESIGN.md 5 C07", tech=TECH,
     note="Trusted: TLC, the driver's key material and mechanism parameters. Quick: 21 mechanisms x 3 configuration "
          "kinds (about 160k cells); thorough: all 73 advertised mechanisms x 5 kinds x 16 usage patterns. A permitted "
          "start may fail for other reasons (only-if); successes are counted in the evidence.")
+CHECKS["C12"] = dict(level="model_checking", ref="DESIGN.md 5 C12", tech=TECH,
+    text="P11Ops.tla keeps, per session, the active operation and exact bookkeeping of bytes fed and returned; its "
+         "Call action accepts an outcome (return value, reported length, bytes written) only if it obeys the protocol: "
+         "OPERATION_ACTIVE / OPERATION_NOT_INITIALIZED, query and BUFFER_TOO_SMALL change nothing and report a bounded "
+         "length (input + buffered + block + tag; exactly the fixed size otherwise), a buffer of the reported length is "
+         "accepted, no overrun, failure ends the operation, and calls that cannot legitimately fail (MustWork) succeed. "
+         "TLC enumerates all call interleavings to the depth bound and simulates beyond; every library call of every "
+         "replayed sequence is validated against the specification.",
+    note="Trusted: TLC, the driver's canary comparison (a written 0xA5 at the very end of the data cannot be told from an "
+         "untouched byte), the ModeTable (block/tag/fixed sizes for a 1024-bit RSA key, P-256, Ed25519). Depth 3-4 "
+         "exhaustive, 10-14 by simulation; 20 modes.")
 NA = {
     "C17": "memory safety and arbitrary byte-level inputs are outside what a TLA+ specification and trace validation can "
            "observe (DESIGN.md 5 C17); crashes met while replaying are reported under the property whose check ran",
